@@ -103,6 +103,8 @@ pub struct M {
     pub timers: Vec<Arc<RwLock<TimerDevice>>>,
     pub timer_cfg: Vec<(u32, u32)>,
     pub devs: Vec<Value>,
+    pub regdevs: Vec<Arc<Mutex<u16>>>,
+    pub last_res: &'static str,
     pub run: u64,
     pub dead: bool,
 }
@@ -127,6 +129,7 @@ impl M {
             sim, shadow, kbd, disp, intfns: vec![], timers: vec![], timer_cfg: vec![],
             devs: vec![dev_json("null", 0, false, 0, 0, 0, 0, 0, 0), dev_json("kbd", 0, false, 0, 0, 0, 0, 0, 0),
                        dev_json("disp", 0, false, 0, 0, 0, 0, 0, 0)],
+            regdevs: vec![], last_res: "none",
             run, dead: false,
         };
         // initial memory as dense segments over a fill word
@@ -213,6 +216,38 @@ impl M {
         self.sim.breakpoints.remove(&lc3_ensemble::sim::debug::Breakpoint::PC(pc));
         self.host(out, json!({"op": "rmbp", "bp": {"k": "pc", "a": pc, "c": {"k": "never", "v": 0}}}));
     }
+    pub fn mark(&mut self, out: &mut Out) { self.host(out, json!({"op": "mark"})); }
+    pub fn trapdone(&mut self, out: &mut Out, vect: u16, prompt: u16) { self.host(out, json!({"op": "trapdone", "vect": vect, "prompt": prompt})); }
+    pub fn halted(&mut self, out: &mut Out) { self.host(out, json!({"op": "halted"})); }
+    /// Replace the keyboard by a fresh BufferedKeyboard (new empty buffer) or by a register device.
+    pub fn set_keyboard_new(&mut self, out: &mut Out, as_reg: Option<u16>) {
+        if self.devs[1]["k"] == "reg" { self.regdevs.remove(0); }
+        match as_reg {
+            None => {
+                let kb = BufferedKeyboard::default();
+                self.kbd = kb.get_buffer().clone();
+                self.sim.device_handler.set_keyboard(kb);
+                self.devs[1] = dev_json("kbd", 0, false, 0, 0, 0, 0, 0, 0);
+                self.host(out, json!({"op": "setdev", "id": 1, "dev": self.devs[1], "clearbuf": "kbd"}));
+            }
+            Some(v) => {
+                let cell = Arc::new(Mutex::new(v));
+                self.sim.device_handler.set_keyboard(RegDev(cell.clone()));
+                self.devs[1] = dev_json("reg", 0, false, 0, 0, 0, 0, 0, v);
+                // device-table order: this register device sits at id 1, before any added ones
+                self.regdevs.insert(0, cell);
+                self.kbd = Arc::new(RwLock::new(VecDeque::new()));
+                self.host(out, json!({"op": "setdev", "id": 1, "dev": self.devs[1], "clearbuf": "kbd"}));
+            }
+        }
+    }
+    pub fn set_display_new(&mut self, out: &mut Out) {
+        let ds = BufferedDisplay::default();
+        self.disp = ds.get_buffer().clone();
+        self.sim.device_handler.set_display(ds);
+        self.devs[2] = dev_json("disp", 0, false, 0, 0, 0, 0, 0, 0);
+        self.host(out, json!({"op": "setdev", "id": 2, "dev": self.devs[2], "clearbuf": "disp"}));
+    }
     pub fn set_mcr(&mut self, out: &mut Out, v: bool) {
         self.sim.mcr().store(v, std::sync::atomic::Ordering::Relaxed);
         self.host(out, json!({"op": "setmcr", "v": v as u8}));
@@ -222,6 +257,12 @@ impl M {
         self.host(out, json!({"op": "timeren", "slot": slot, "en": en as u8}));
     }
     pub fn remove_device(&mut self, out: &mut Out, id: u16) {
+        // keep the list of register cells aligned with the device table
+        let mut nth = 0usize;
+        for (j, d) in self.devs.iter().enumerate() {
+            if d["k"] == "reg" { if j as u16 == id { self.regdevs.remove(nth); break; } nth += 1; }
+        }
+        if (id as usize) < self.devs.len() { self.devs[id as usize] = dev_json("null", 0, false, 0, 0, 0, 0, 0, 0); }
         self.sim.device_handler.remove_device(id);
         self.host(out, json!({"op": "rmdev", "id": id}));
     }
@@ -233,6 +274,7 @@ impl M {
 
     pub fn kbd_ie(&mut self) -> u8 {
         // effect-free status read straight from the device handler (does not touch sim.mem)
+        if self.devs[1]["k"] != "kbd" { return 0; }
         match self.sim.device_handler.io_read(0xFE00, false) {
             Some(v) => ((v >> 14) & 1) as u8,
             None => 0,
@@ -290,6 +332,7 @@ impl M {
             "timers": self.timers.iter().map(|t| t.read().unwrap().get_remaining()).collect::<Vec<_>>(),
             "timer_en": self.timers.iter().map(|t| t.read().unwrap().enabled as u8).collect::<Vec<_>>(),
             "memdiff": memdiff,
+            "regvals": self.regdevs.iter().map(|r| *r.lock().unwrap()).collect::<Vec<_>>(),
             "alloca": self.sim.verif_alloca().iter().map(|&(s, l)| json!([s, l])).collect::<Vec<_>>(),
             "hit_halt": self.sim.hit_halt() as u8, "hit_bp": self.sim.hit_breakpoint() as u8,
         })
@@ -414,8 +457,9 @@ impl M {
     }
     pub fn add_regdev(&mut self, out: &mut Out, ports: &[u16], val: u16) {
         let d = dev_json("reg", 0, false, 0, 0, 0, 0, 0, val);
-        let res = self.sim.device_handler.add_device(RegDev(Arc::new(Mutex::new(val))), ports);
-        if res.is_ok() { self.devs.push(d.clone()); }
+        let cell = Arc::new(Mutex::new(val));
+        let res = self.sim.device_handler.add_device(RegDev(cell.clone()), ports);
+        if res.is_ok() { self.devs.push(d.clone()); self.regdevs.push(cell); }
         self.host(out, json!({"op": "adddev", "dev": d, "ports": ports, "res": res.map(|x| x as i64).unwrap_or(-1)}));
     }
     /// Adds a seeded timer with inclusive range lo..=hi; returns its slot.
@@ -466,6 +510,7 @@ impl M {
                 let env = self.env_json(lock_k, lock_d);
                 let p = self.proj();
                 let name = res_name(&r);
+                self.last_res = name;
                 out.emit(json!({"ev": "Step", "run": self.run, "env": env, "res": name, "proj": p}));
                 name
             }
@@ -512,15 +557,16 @@ impl M {
                 }).collect();
                 let p = self.proj();
                 let name = res_name(&r);
+                self.last_res = name;
                 out.emit(json!({"ev": "Run", "run": self.run, "kind": kind, "arg": arg, "envs": envs, "nsteps": polls, "res": name, "proj": p}));
                 name
             }
         }
     }
     /// FNV-1a digest of the whole memory (values and masks), as two 30-bit integers.
-    pub fn mem_digest(&self) -> (u32, u32) {
+    pub fn mem_digest_range(&self, lo: u16, hi: u16) -> (u32, u32) {
         let mut h: u64 = 0xcbf29ce484222325;
-        for a in 0..=u16::MAX {
+        for a in lo..=hi {
             let x = self.sim.mem[a];
             for b in [x.get() as u8, (x.get() >> 8) as u8, x.verif_mask() as u8, (x.verif_mask() >> 8) as u8] {
                 h ^= b as u64; h = h.wrapping_mul(0x100000001b3);
@@ -531,9 +577,12 @@ impl M {
     pub fn end(&mut self, out: &mut Out) {
         if self.dead { return; }
         let p = self.proj();
-        let (h1, h2) = self.mem_digest();
+        let (h1, h2) = self.mem_digest_range(0, 0xFFFF);
+        let (u1, u2) = self.mem_digest_range(0x3000, 0xFDFF);
         let fin = json!({"pc": p["pc"], "psr": p["psr"], "regs": p["regs"], "ssp": p["ssp"], "icount": p["icount"],
-                         "disp": p["disp"], "kbd": p["kbd"], "fno": p["fno"], "memh": [h1, h2], "hit_halt": p["hit_halt"]});
+                         "disp": p["disp"], "kbd": p["kbd"], "fno": p["fno"], "memh": [h1, h2], "umemh": [u1, u2],
+                         "hit_halt": p["hit_halt"], "mcr": p["mcr"], "lastres": self.last_res,
+                         "athalt": (self.sim.mem[self.sim.pc].get() == 0xF025 && self.sim.verif_prefetch()) as u8});
         out.emit(json!({"ev": "End", "run": self.run, "proj": p, "final": fin}));
     }
 }
